@@ -134,6 +134,15 @@ impl Monitor for Mon {
             }
         }
         let menu = reply_menu(&w.cfg);
+        // clients that enforce FINGERPRINT: the acceptable reply without / with a wrong FINGERPRINT is refused and changes
+        // nothing about the timers
+        if w.cfg.fingerprint {
+            for i in w.awaiting().into_iter().take(2) {
+                for f in [super::server::RFp::Absent, super::server::RFp::Bad] {
+                    v.push(Event::Deliver { to: Target::Req(i), reply: menu[0].with_fp(f) });
+                }
+            }
+        }
         for i in w.awaiting().into_iter().take(2) {
             v.push(Event::Deliver { to: Target::Req(i), reply: menu[0] });
             if let Some(bad) = menu.get(2) {
@@ -183,6 +192,10 @@ pub fn run(ctx: &RunCtx) -> i32 {
         jobs.push((cfg.clone(), 3, if thorough { 10 } else { 8 }, if thorough { TimeDetail::Medium } else { TimeDetail::Coarse }));
         jobs.push((cfg, 4, if thorough { 10 } else { 8 }, TimeDetail::Coarse));
     }
+    // fingerprint-enforcing clients
+    for (t, m) in [(Transport::Unreliable { rto_ms: 100, gran_ms: 1, rm: 2, rc: 2 }, Mech::None), (Transport::Reliable { timeout_ms: 300 }, Mech::ShortTerm(Some(false)))] {
+        jobs.push((Cfg { transport: t, mech: m, fingerprint: true, max_tx: 10, cred: 0, method: 1 }, 2, if thorough { 10 } else { 8 }, TimeDetail::Coarse));
+    }
     // small tables (limit 1 and 2): sends into a full table, also while a deadline is already overdue
     for (t, lim, n) in [
         (Transport::Reliable { timeout_ms: 300 }, 1usize, 3usize),
@@ -231,7 +244,7 @@ pub fn run(ctx: &RunCtx) -> i32 {
         rep,
         Finish {
             level: "model_checking",
-            rule: format!("free timer calls: breadth-first exploration to depth {} with 2, 3, 4 and 5 requests started at different instants (RTO from 37 ms to 70 s), timer calls at region representatives (incl. overdue ones), acceptable and auth-failing replies, indications and replies for unknown ids, indications / requests carrying the id of an awaiting request, sends refused for lack of buffer space, tables of 1 and 2 slots with sends into the full table while a final deadline is already overdue (late controller); faithful controller: every run-to-completion with <= {} deviations where the controller keeps one armed timer (replaced by each newer notification, kept across received buffers) and fires it on time / 1 ms early / 1 ms late / half a slot late / beyond all deadlines, with lost, duplicated, late and rejected replies and extra requests. Monitor: after send_request / on_timeout exactly one notification iff a request awaits; it names an awaiting request with the minimal pending deadline (least schedule point or final deadline after its last handling, integer ns) and announces max(0, deadline - now); every request awaiting at a timer call at or after its final deadline is final after it; controller runs end with nothing awaiting", if thorough { 11 } else { 9 }, if thorough { 4 } else { 3 }),
+            rule: format!("free timer calls: breadth-first exploration to depth {} with 2, 3, 4 and 5 requests started at different instants (RTO from 37 ms to 70 s), timer calls at region representatives (incl. overdue ones), acceptable and auth-failing replies, indications and replies for unknown ids, indications / requests carrying the id of an awaiting request, sends refused for lack of buffer space, two fingerprint-enforcing configurations (the acceptable reply without / with a wrong FINGERPRINT is refused), tables of 1 and 2 slots with sends into the full table while a final deadline is already overdue (late controller); faithful controller: every run-to-completion with <= {} deviations where the controller keeps one armed timer (replaced by each newer notification, kept across received buffers) and fires it on time / 1 ms early / 1 ms late / half a slot late / beyond all deadlines, with lost, duplicated, late and rejected replies and extra requests. Monitor: after send_request / on_timeout exactly one notification iff a request awaits; it names an awaiting request with the minimal pending deadline (least schedule point or final deadline after its last handling, integer ns) and announces max(0, deadline - now); every request awaiting at a timer call at or after its final deadline is final after it; controller runs end with nothing awaiting", if thorough { 11 } else { 9 }, if thorough { 4 } else { 3 }),
             assumptions: vec!["pending deadlines follow C06's schedule arithmetic with the per-transaction RTO read through H1".into()],
             required_symbols: vec!["bfs-configs", "accurate-notification", "overdue-zero", "no-notification-when-idle", "controller-run-terminated", "controller-runs", "tie"],
             min_outcomes: 6,
